@@ -16,10 +16,12 @@ use shared::triple::Triple;
 pub const DEF: PropDef = PropDef {
     id: "C17",
     level: "exploration",
-    rule: "cases = (request text, database state, entry point): request texts are the C16 seed corpus (SELECT forms, the six update forms, legacy INSERT/DELETE aliases, rejected requests, RULE/REGISTER/RETRIEVE/ML.PREDICT extension requests), every single mutation of every seed (delete / insert / substitute 14 special characters incl. multi-byte / truncate, at every offset) and every token string of <=2 (thorough <=3) tokens over the 30-token alphabet; states: empty, default-graph only, named graphs + an empty named graph, quoted triples (quick: each mutation against one of two states, alternating; thorough: all four); entry points execute_sparql_query, the HTTP query endpoint (SparqlDatabase::handle_http_request with a well-formed POST application/sparql-query and a form-encoded query= body), execute_sparql_update, SparqlDatabase::execute_update, SparqlDatabase::handle_update and (SELECT texts only) the legacy execute_query_rayon_parallel2_volcano. Oracle: no entry point panics; execute_sparql_query and the HTTP query endpoint leave quads + catalog identical for every text and returns Err for every text the parser classifies as an Update; a text the parser classifies as SELECT leaves the dataset unchanged through every entry point and is refused by the update entry points; an update entry point that returns Err / 'Update Failed' leaves the dataset unchanged. Non-trivial = texts accepted by the request parser; distinct by (text, state).",
+    rule: "cases = (request text, database state, entry point): request texts are the C16 seed corpus (SELECT forms, the six update forms incl. the C03 extension symbols, legacy INSERT/DELETE aliases, rejected requests, RULE/REGISTER/RETRIEVE/ML.PREDICT extension requests) plus C17's own seeds (two single-line requests longer than 200 columns with multi-byte literals spread through them; an update behind REGISTER / RETRIEVE / ML.PREDICT / a MODEL + NEURAL RELATION declaration; a SELECT over a declared, untrained neural relation; CRLF- and tab-separated requests), every single mutation of every seed (delete / insert / substitute 14 special characters incl. multi-byte / truncate, at every offset; quick: C17's own long seeds get every third of these, rotating with the offset) and every token string of <=2 (thorough <=3) tokens over the 34-token alphabet. Family ws_mutation: insertion and substitution, at every offset of every fourth seed and of every C17 seed, of six characters the C16 alphabet lacks (tab, CR, CRLF, combining acute, zero-width space, a double-width CJK character); family tokens_ws: token strings of <=2 tokens containing one of them, spaced and glued. States: empty, default-graph only, named graphs + an empty named graph, quoted triples (quick: each mutation against one of two states, alternating; thorough: all four). Entry points: execute_sparql_query, the HTTP query endpoint (SparqlDatabase::handle_http_request with a well-formed POST application/sparql-query, a form-encoded query= body, and - for seeds, tokens and every eighth mutation - GET /sparql?query= and a form body that writes spaces as '+'), execute_sparql_update, SparqlDatabase::execute_update, SparqlDatabase::handle_update and (SELECT texts only) the legacy execute_query_rayon_parallel2_volcano. Family http_form_raw: form bodies whose query= value carries a raw invalid-UTF-8 escape (%E9), a dangling '%', '%zz', '%00' or '+' at the start, middle or end of every seed; the text that reaches the engine is computed by an independent decoder. Family neural_train: one complete neural-relation program (MODEL + NEURAL RELATION + TRAIN NEURAL RELATION + SELECT over the neural predicate) per state, as one request text through every route. Family history2: every ordered pair of 12 requests (prefix-declaring / prefix-using SELECT and updates, a failed update, a rule, a neural declaration, garbage) where the first goes through execute_sparql_query, execute_update or the legacy adapter and the second is judged. Oracle: no entry point panics; execute_sparql_query and the HTTP query endpoint leave quads + catalog identical for every text, return Err / 'Query Failed' for every text the parser classifies as an Update and for every text it classifies as malformed; a text the parser classifies as SELECT leaves the dataset unchanged through every entry point and is refused by the update entry points; an update entry point that returns Err / 'Update Failed' leaves the dataset unchanged and returns Err for every malformed text. Non-trivial = texts accepted by the request parser; distinct by (text, state).",
     assumptions: &[
-        "classification of a text as SELECT / Update / malformed is taken from kolibrie::parser::parse_combined_query (whose totality and faithfulness are C16's subject)",
+        "classification of a text as SELECT / Update / malformed is taken from kolibrie::parser::parse_combined_query (whose totality and faithfulness are C16's subject); for the POST application/sparql-query route the classified text is the part of the body before the first blank line (CRLF CRLF), which is what that route hands to the engine",
         "each case runs on a fresh database; crash isolation by worker subprocess (a worker killed by a signal is a violation)",
+        "HTTP framing (request line, headers) is fixed and well-formed; only the request text varies. Form bodies carrying both query= and update= are not generated (the protocol leaves them open)",
+        "family neural_train: TRAIN NEURAL RELATION occurs in exactly one generated text per state (a complete MODEL + NEURAL RELATION + TRAIN + SELECT program, one epoch, artifact written to <temp dir>/kolibrie-vcheck-c17-train-<state>.bin); it is never mutated, because a mutated SAVE_TO would write files elsewhere",
     ],
     run,
     replay,
@@ -55,6 +57,66 @@ pub fn build_state(ds: &Dataset, quoted: bool) -> SparqlDatabase {
     db
 }
 
+/// Characters the C16 mutation alphabet lacks: line structure (tab, CR, CRLF) and display-width
+/// classes (combining, zero-width, double-width) that the error renderer treats specially.
+pub const WS_SPECIALS: [&str; 6] = ["\t", "\r", "\r\n", "\u{301}", "\u{200B}", "中"];
+
+const NEURAL_DECL: &str = "MODEL \"m\" { ARCH MLP { HIDDEN [2] } OUTPUT BINARY { \"yes\" } } NEURAL RELATION <http://e/nr> USING MODEL \"m\" { INPUT { ?s <http://e/q> ?v . } FEATURES { ?v } }";
+
+/// C17's own seeds (on top of the C16 corpus).
+pub fn extra_seeds() -> Vec<String> {
+    let mut v: Vec<String> = Vec::new();
+    // single lines longer than 200 columns, multi-byte literals spread through them
+    let lits = ["é1", "中文", "😀", "e\u{301}", "a\u{200B}b", "ß", "日本", "x"];
+    let mut q = String::from("SELECT ?s WHERE {");
+    for (k, l) in lits.iter().enumerate() {
+        q.push_str(&format!(" ?s <http://e/p{}> \"{}\" .", k, l));
+    }
+    q.push_str(" ?s <http://e/p> ?o . FILTER(?o != \"ü\") }");
+    v.push(q);
+    let mut u = String::from("INSERT DATA {");
+    for (k, l) in lits.iter().enumerate() {
+        u.push_str(&format!(" <http://e/s{}> <http://e/p> \"{}\" .", k, l));
+    }
+    u.push_str(" GRAPH <http://e/g1> { <http://e/a> <http://e/p> \"末\" . } }");
+    v.push(u);
+    // an update behind each extension clause (the operation-kind check must still see it)
+    v.push("REGISTER ISTREAM <http://out/stream> AS SELECT * FROM NAMED WINDOW :w ON ?stream [RANGE 3 STEP 1] WHERE { WINDOW :w { ?s a <http://test/IType> . } } INSERT DATA { <http://e/a> <http://e/p> <http://e/c> . }".into());
+    v.push("RETRIEVE SOME ACTIVE STREAM ?s FROM <http://my.org/catalog> WITH { ?s a :Stream . } INSERT DATA { <http://e/a> <http://e/p> <http://e/c> . }".into());
+    v.push("ML.PREDICT( MODEL \"m\", INPUT { SELECT ?room ?h WHERE { ?room :humidity ?h } }, OUTPUT ?t ) INSERT DATA { <http://e/a> <http://e/p> <http://e/c> . }".into());
+    v.push(format!("{} INSERT DATA {{ <http://e/a> <http://e/p> <http://e/c> . }}", NEURAL_DECL));
+    v.push(format!("{} DELETE WHERE {{ ?s <http://e/p> ?o }}", NEURAL_DECL));
+    // a SELECT over a declared but untrained neural relation (the materialisation hook of execute_select)
+    v.push(format!("{} SELECT ?s WHERE {{ ?s <http://e/nr> ?o }}", NEURAL_DECL));
+    // other line structures
+    v.push("SELECT ?s\r\nWHERE {\r\n  ?s <http://e/p> ?o .\r\n}".into());
+    v.push("SELECT\t?s\tWHERE\t{\t?s\t<http://e/p>\t\"é\"\t.\t}".into());
+    v.push("INSERT DATA {\r\n<http://e/a> <http://e/p> \"é\" .\r\n}".into());
+    v
+}
+
+/// One complete neural-relation program (MODEL + NEURAL RELATION + TRAIN + SELECT over the neural
+/// predicate) as a single request text: the only request shape whose SELECT is meant to write
+/// predictions into the store. It is a request string like any other, so it is inside the
+/// property's quantifier; it is never mutated (a mutated SAVE_TO would write files elsewhere).
+/// One epoch over the (at most two) rows of the state; the artifact goes to a per-state file
+/// under the system temp directory.
+pub fn neural_train_text(state_idx: usize) -> String {
+    let path = std::env::temp_dir().join(format!("kolibrie-vcheck-c17-train-{}.bin", state_idx));
+    format!(
+        "PREFIX ex: <http://e/>\nMODEL \"vcheck_m{st}\" {{\n    ARCH MLP {{ HIDDEN [2] }}\n    OUTPUT EXCLUSIVE {{ \"http://e/b\", \"http://e/c\" }}\n}}\nNEURAL RELATION ex:nr USING MODEL \"vcheck_m{st}\" {{\n    INPUT {{\n        ?s ex:q ?v .\n    }}\n    FEATURES {{ ?v }}\n}}\nTRAIN NEURAL RELATION ex:nr {{\n    DATA {{\n        ?s ex:p ?l .\n    }}\n    LABEL ?l\n    TARGET {{ ?s ex:nr ?l }}\n    LOSS cross_entropy\n    OPTIMIZER adam\n    LEARNING_RATE 0.1\n    EPOCHS 1\n    BATCH_SIZE 1\n    SAVE_TO \"{path}\"\n}}\nSELECT ?s WHERE {{ ?s ex:nr ?o . }}",
+        st = state_idx,
+        path = path.display()
+    )
+}
+
+fn all_seeds() -> (Vec<String>, usize) {
+    let mut v = seed_corpus();
+    let n = v.len();
+    v.extend(extra_seeds());
+    (v, n)
+}
+
 #[derive(Clone, Copy, PartialEq, Eq, Debug)]
 enum Kind {
     Select,
@@ -72,7 +134,7 @@ fn classify(text: &str) -> Kind {
     }
 }
 
-const ENTRIES: [&str; 7] = [
+const ENTRIES: [&str; 9] = [
     "execute_sparql_query",
     "execute_sparql_update",
     "SparqlDatabase::execute_update",
@@ -80,13 +142,22 @@ const ENTRIES: [&str; 7] = [
     "legacy_volcano",
     "http_post_sparql_query",
     "http_form_query",
+    // only with `wide`
+    "http_get_query",
+    "http_form_query_plus",
 ];
 
-fn percent_encode(text: &str) -> String {
+fn is_query_entry(entry: &str) -> bool {
+    matches!(entry, "execute_sparql_query" | "http_post_sparql_query" | "http_form_query" | "http_get_query" | "http_form_query_plus" | "http_form_query_raw")
+}
+
+fn percent_encode(text: &str, space_as_plus: bool) -> String {
     let mut o = String::new();
     for b in text.bytes() {
         if b.is_ascii_alphanumeric() || matches!(b, b'-' | b'_' | b'.' | b'~') {
             o.push(b as char);
+        } else if b == b' ' && space_as_plus {
+            o.push('+');
         } else {
             o.push_str(&format!("%{:02X}", b));
         }
@@ -94,33 +165,115 @@ fn percent_encode(text: &str) -> String {
     o
 }
 
+/// application/x-www-form-urlencoded value decoding, written independently of the subject:
+/// '+' is a space, %XX with two hex digits is that byte, anything else stands for itself, and the
+/// byte string is read as UTF-8 with replacement characters.
+fn form_decode(raw: &str) -> String {
+    let b = raw.as_bytes();
+    let hex = |c: u8| -> Option<u8> {
+        match c {
+            b'0'..=b'9' => Some(c - b'0'),
+            b'a'..=b'f' => Some(c - b'a' + 10),
+            b'A'..=b'F' => Some(c - b'A' + 10),
+            _ => None,
+        }
+    };
+    let mut out: Vec<u8> = Vec::with_capacity(b.len());
+    let mut i = 0;
+    while i < b.len() {
+        match b[i] {
+            b'+' => {
+                out.push(b' ');
+                i += 1;
+            }
+            b'%' if i + 2 < b.len() && hex(b[i + 1]).is_some() && hex(b[i + 2]).is_some() => {
+                out.push(hex(b[i + 1]).unwrap() * 16 + hex(b[i + 2]).unwrap());
+                i += 3;
+            }
+            c => {
+                out.push(c);
+                i += 1;
+            }
+        }
+    }
+    String::from_utf8_lossy(&out).into_owned()
+}
+
+const POST_QUERY: &str = "POST /sparql HTTP/1.1\r\nHost: x\r\nContent-Type: application/sparql-query\r\n\r\n";
+const POST_FORM: &str = "POST /sparql HTTP/1.1\r\nHost: x\r\nContent-Type: application/x-www-form-urlencoded\r\n\r\n";
+
+/// Run `text` through one entry point; Ok(true) = success value, Ok(false) = error value.
+fn call_entry(entry: &str, text: &str, db: &mut SparqlDatabase) -> Result<bool, String> {
+    guarded(|| match entry {
+        "execute_sparql_query" => execute_sparql_query(text, db).is_ok(),
+        "execute_sparql_update" => execute_sparql_update(text, db).is_ok(),
+        "SparqlDatabase::execute_update" => db.execute_update(text).is_ok(),
+        "SparqlDatabase::handle_update" => db.handle_update(text) != "Update Failed",
+        // the HTTP query endpoint: HTTP framing is fixed and well-formed, only the query text varies
+        "http_post_sparql_query" => !db.handle_http_request(&format!("{}{}", POST_QUERY, text)).starts_with("Query Failed"),
+        "http_form_query" => !db.handle_http_request(&format!("{}query={}", POST_FORM, percent_encode(text, false))).starts_with("Query Failed"),
+        "http_form_query_plus" => !db.handle_http_request(&format!("{}query={}", POST_FORM, percent_encode(text, true))).starts_with("Query Failed"),
+        // `text` is the raw, still encoded value here
+        "http_form_query_raw" => !db.handle_http_request(&format!("{}query={}", POST_FORM, text)).starts_with("Query Failed"),
+        "http_get_query" => !db.handle_http_request(&format!("GET /sparql?query={} HTTP/1.1\r\nHost: x\r\n\r\n", percent_encode(text, false))).starts_with("Query Failed"),
+        _ => {
+            let _ = execute_query_rayon_parallel2_volcano(text, db);
+            true
+        }
+    })
+}
+
+type Fail = (&'static str, String, &'static str);
+
+/// Judge one (entry, text) execution. `kind` classifies the text that reaches the engine.
+fn judge(entry: &'static str, shown: &str, kind: Kind, ok: bool, before: &Dataset, after: &Dataset, fails: &mut Vec<Fail>) {
+    let changed = after != before;
+    if is_query_entry(entry) {
+        if changed {
+            fails.push(("query_entry_point_modified_data", format!("{:?}\n  before {:?}\n  after  {:?}", shown, before, after), entry));
+        }
+        if kind == Kind::Update && ok {
+            fails.push(("update_accepted_by_query_entry_point", format!("{:?} is an Update but {} returned a success value", shown, entry), entry));
+        }
+        if kind == Kind::Malformed && ok {
+            fails.push(("malformed_request_accepted", format!("{:?} is rejected by the request parser but {} returned a success value", shown, entry), entry));
+        }
+    } else if entry == "legacy_volcano" {
+        if changed {
+            fails.push(("select_modified_data", format!("{:?}\n  before {:?}\n  after  {:?}", shown, before, after), entry));
+        }
+    } else {
+        if kind == Kind::Select {
+            if changed {
+                fails.push(("select_modified_data", format!("{:?}\n  before {:?}\n  after  {:?}", shown, before, after), entry));
+            }
+            if ok && entry != "SparqlDatabase::handle_update" {
+                fails.push(("select_accepted_by_update_entry_point", format!("{:?}", shown), entry));
+            }
+        }
+        if !ok && changed {
+            fails.push(("failed_update_changed_dataset", format!("{:?}\n  before {:?}\n  after  {:?}", shown, before, after), entry));
+        }
+        if kind == Kind::Malformed && ok && entry != "SparqlDatabase::handle_update" {
+            fails.push(("malformed_request_accepted", format!("{:?} is rejected by the request parser but {} returned Ok", shown, entry), entry));
+        }
+    }
+}
+
 /// returns failures (symptom, detail, entry)
-fn check_case(text: &str, state_idx: usize, kind: Kind) -> Vec<(&'static str, String, &'static str)> {
+fn check_case(text: &str, state_idx: usize, kind: Kind, wide: bool) -> Vec<Fail> {
     let (_, ds, quoted) = &states()[state_idx];
     let mut fails = Vec::new();
     for entry in ENTRIES {
         if entry == "legacy_volcano" && kind != Kind::Select {
             continue; // the legacy adapter accepts updates by design
         }
+        if !wide && matches!(entry, "http_get_query" | "http_form_query_plus") {
+            continue;
+        }
         let mut db = build_state(ds, *quoted);
         let before = extract(&db);
-        // Ok(Some(true)) = returned success, Ok(Some(false)) = returned an error value
-        let res: Result<bool, String> = guarded(|| match entry {
-            "execute_sparql_query" => execute_sparql_query(text, &mut db).is_ok(),
-            "execute_sparql_update" => execute_sparql_update(text, &mut db).is_ok(),
-            "SparqlDatabase::execute_update" => db.execute_update(text).is_ok(),
-            "SparqlDatabase::handle_update" => db.handle_update(text) != "Update Failed",
-            // the HTTP query endpoint: HTTP framing is fixed and well-formed, only the query text varies
-            "http_post_sparql_query" => !db.handle_http_request(&format!("POST /sparql HTTP/1.1\r\nHost: x\r\nContent-Type: application/sparql-query\r\n\r\n{}", text)).starts_with("Query Failed"),
-            "http_form_query" => !db
-                .handle_http_request(&format!("POST /sparql HTTP/1.1\r\nHost: x\r\nContent-Type: application/x-www-form-urlencoded\r\n\r\nquery={}", percent_encode(text)))
-                .starts_with("Query Failed"),
-            _ => {
-                let _ = execute_query_rayon_parallel2_volcano(text, &mut db);
-                true
-            }
-        });
-        let ok = match res {
+        let ok = match call_entry(entry, text, &mut db) {
             Err(p) => {
                 fails.push(("panic", format!("{} panicked on {:?}: {}", entry, text, p), entry));
                 continue;
@@ -128,57 +281,193 @@ fn check_case(text: &str, state_idx: usize, kind: Kind) -> Vec<(&'static str, St
             Ok(ok) => ok,
         };
         let after = extract(&db);
-        let changed = after != before;
-        match entry {
-            "execute_sparql_query" | "http_post_sparql_query" | "http_form_query" => {
-                if changed {
-                    fails.push(("query_entry_point_modified_data", format!("{:?}\n  before {:?}\n  after  {:?}", text, before, after), entry));
-                }
-                if kind == Kind::Update && ok {
-                    fails.push(("update_accepted_by_query_entry_point", format!("{:?} is an Update but execute_sparql_query returned Ok", text), entry));
-                }
-            }
-            "legacy_volcano" => {
-                if changed {
-                    fails.push(("select_modified_data", format!("{:?}\n  before {:?}\n  after  {:?}", text, before, after), entry));
-                }
-            }
-            _ => {
-                if kind == Kind::Select {
-                    if changed {
-                        fails.push(("select_modified_data", format!("{:?}\n  before {:?}\n  after  {:?}", text, before, after), entry));
-                    }
-                    if ok && entry != "SparqlDatabase::handle_update" {
-                        fails.push(("select_accepted_by_update_entry_point", format!("{:?}", text), entry));
-                    }
-                }
-                if !ok && changed {
-                    fails.push(("failed_update_changed_dataset", format!("{:?}\n  before {:?}\n  after  {:?}", text, before, after), entry));
-                }
-                if kind == Kind::Malformed && ok && entry != "SparqlDatabase::handle_update" {
-                    fails.push(("malformed_request_accepted", format!("{:?} is rejected by the request parser but {} returned Ok", text, entry), entry));
-                }
-            }
-        }
+        // the POST application/sparql-query route hands on the body up to the first blank line
+        let kind_here = if entry == "http_post_sparql_query" && text.contains("\r\n\r\n") { classify(text.split("\r\n\r\n").next().unwrap_or("")) } else { kind };
+        judge(entry, text, kind_here, ok, &before, &after, &mut fails);
     }
     fails
 }
 
-fn record(out: &mut ShardOut, ctx: &Ctx, family: &str, text: &str, state_idx: usize) {
+fn note_text(out: &mut ShardOut, text: &str, kind: Kind) {
+    out.count(&format!("kind_{:?}", kind), 1);
+    if kind == Kind::Malformed {
+        if text.contains('\t') || text.contains('\r') {
+            out.count("malformed_texts_with_tab_or_cr", 1);
+        }
+        if text.contains('\u{301}') || text.contains('\u{200B}') || text.contains('中') {
+            out.count("malformed_texts_with_zero_or_double_width_char", 1);
+        }
+        if text.lines().any(|l| l.chars().count() > 140) {
+            out.count("malformed_texts_with_line_over_140_columns", 1);
+        }
+    }
+}
+
+fn record(out: &mut ShardOut, ctx: &Ctx, family: &str, text: &str, state_idx: usize, wide: bool) {
     if let Some(p) = &ctx.progress {
         p.mark(&json!({"family": family, "text": text, "state": state_idx}).to_string());
     }
     let kind = classify(text);
     out.evaluations += 1;
-    out.count(&format!("kind_{:?}", kind), 1);
+    out.count(&format!("family_{}", family), 1);
+    if wide {
+        out.count("cases_with_http_get_and_plus_form_routes", 1);
+    }
+    note_text(out, text, kind);
     if kind != Kind::Malformed {
         out.nontrivial(&(text, state_idx));
     }
-    let fails = check_case(text, state_idx, kind);
+    let fails = check_case(text, state_idx, kind, wide);
     out.outcomes.insert(crate::infra::hash64(&(format!("{:?}", kind), fails.len())));
     for (symptom, detail, entry) in fails {
-        let tags = vec![format!("entry={}", entry), format!("kind={:?}", kind), format!("multibyte={}", !text.is_ascii()), format!("family={}", family)];
-        out.fail(json!({"family": family, "text": text, "state": state_idx}), symptom, detail, tags);
+        let mut tags = vec![format!("entry={}", entry), format!("kind={:?}", kind), format!("multibyte={}", !text.is_ascii()), format!("family={}", family)];
+        // structural facts about the request itself
+        if text.contains("TRAIN NEURAL RELATION") {
+            tags.push("request_has_train_neural_relation".into());
+        }
+        if text.contains("NEURAL RELATION") {
+            tags.push("request_declares_neural_relation".into());
+        }
+        out.fail(json!({"family": family, "text": text, "state": state_idx, "wide": wide}), symptom, detail, tags);
+    }
+}
+
+// ---------------------------------------------------------------------------------------
+// family http_form_raw
+// ---------------------------------------------------------------------------------------
+
+const RAW_INJECTIONS: [&str; 6] = ["%E9", "%", "%zz", "%00", "+", "%C3"];
+
+fn raw_form_values(seed: &str) -> Vec<String> {
+    let bounds: Vec<usize> = seed.char_indices().map(|(i, _)| i).chain(std::iter::once(seed.len())).collect();
+    let positions = [0usize, bounds[bounds.len() / 2], seed.len()];
+    let mut v = Vec::new();
+    for inj in RAW_INJECTIONS {
+        for (k, &p) in positions.iter().enumerate() {
+            if k > 0 && positions[..k].contains(&p) {
+                continue;
+            }
+            v.push(format!("{}{}{}", percent_encode(&seed[..p], false), inj, percent_encode(&seed[p..], false)));
+        }
+    }
+    v
+}
+
+fn record_raw_form(out: &mut ShardOut, ctx: &Ctx, raw: &str, state_idx: usize) {
+    if let Some(p) = &ctx.progress {
+        p.mark(&json!({"family": "http_form_raw", "text": raw, "state": state_idx}).to_string());
+    }
+    let decoded = form_decode(raw);
+    let kind = classify(&decoded);
+    out.evaluations += 1;
+    out.count("family_http_form_raw", 1);
+    if decoded.contains('\u{FFFD}') {
+        out.count("http_form_raw_lossy_decodings", 1);
+    }
+    note_text(out, &decoded, kind);
+    if kind != Kind::Malformed {
+        out.nontrivial(&(raw, state_idx));
+    }
+    let (_, ds, quoted) = &states()[state_idx];
+    let mut db = build_state(ds, *quoted);
+    let before = extract(&db);
+    let mut fails: Vec<Fail> = Vec::new();
+    let entry = "http_form_query_raw";
+    match call_entry(entry, raw, &mut db) {
+        Err(p) => fails.push(("panic", format!("{} panicked on query={:?}: {}", entry, raw, p), entry)),
+        Ok(ok) => {
+            let after = extract(&db);
+            judge(entry, &decoded, kind, ok, &before, &after, &mut fails);
+        }
+    }
+    out.outcomes.insert(crate::infra::hash64(&(format!("raw{:?}", kind), fails.len())));
+    for (symptom, detail, entry) in fails {
+        let tags = vec![format!("entry={}", entry), format!("kind={:?}", kind), format!("multibyte={}", !decoded.is_ascii()), "family=http_form_raw".to_string()];
+        out.fail(json!({"family": "http_form_raw", "text": raw, "state": state_idx}), symptom, detail, tags);
+    }
+}
+
+// ---------------------------------------------------------------------------------------
+// family history2
+// ---------------------------------------------------------------------------------------
+
+fn history_requests() -> Vec<String> {
+    vec![
+        "PREFIX ex: <http://e/> SELECT ?s WHERE { ?s ex:p ?o }".into(),
+        "SELECT ?s WHERE { ?s ex:p ?o }".into(),
+        "PREFIX ex: <http://e/> INSERT DATA { ex:a ex:p ex:c }".into(),
+        "INSERT DATA { ex:a ex:p ex:d }".into(),
+        "PREFIX ex: <http://e/> INSERT DATA { ex:a ex:p ".into(),
+        "PREFIX ex: <http://f/> SELECT ?s WHERE { ?s ex:p ?o }".into(),
+        "RULE :R :- CONSTRUCT { ?x <http://e/p> ?z . } WHERE { ?x <http://e/p> ?y . ?y <http://e/p> ?z . }".into(),
+        "DELETE WHERE { ?s <http://e/p> ?o }".into(),
+        "SELECT ?s ?g WHERE { GRAPH ?g { ?s <http://e/p> ?o } }".into(),
+        format!("{} SELECT ?s WHERE {{ ?s <http://e/nr> ?o }}", NEURAL_DECL),
+        "SELECT ?s WHERE { ?s <http://e/nr> ?o }".into(),
+        "é".into(),
+    ]
+}
+
+const HISTORY_FIRST: [&str; 3] = ["execute_sparql_query", "SparqlDatabase::execute_update", "legacy_volcano"];
+const HISTORY_SECOND: [&str; 6] = ["execute_sparql_query", "http_post_sparql_query", "http_form_query", "execute_sparql_update", "SparqlDatabase::execute_update", "SparqlDatabase::handle_update"];
+
+fn record_history(out: &mut ShardOut, ctx: &Ctx, state_idx: usize, r1: usize, e1: usize, r2: usize) {
+    let reqs = history_requests();
+    let case = json!({"family": "history2", "state": state_idx, "r1": r1, "e1": e1, "r2": r2, "first": reqs[r1], "text": reqs[r2]});
+    if let Some(p) = &ctx.progress {
+        p.mark(&case.to_string());
+    }
+    let text = &reqs[r2];
+    let kind = classify(text);
+    out.evaluations += 1;
+    out.count("family_history2", 1);
+    let (_, ds, quoted) = &states()[state_idx];
+    let mut fails: Vec<Fail> = Vec::new();
+    let mut first_changed = false;
+    for entry in HISTORY_SECOND {
+        let mut db = build_state(ds, *quoted);
+        let start = extract(&db);
+        // the first request only builds the history; its own behaviour is judged by the other families
+        if call_entry(HISTORY_FIRST[e1], &reqs[r1], &mut db).is_err() {
+            out.count("history2_first_request_panicked", 1);
+            continue;
+        }
+        let before = extract(&db);
+        first_changed |= before != start;
+        match call_entry(entry, text, &mut db) {
+            Err(p) => fails.push(("panic", format!("{} panicked on {:?} after {:?}: {}", entry, text, reqs[r1], p), entry)),
+            Ok(ok) => {
+                let after = extract(&db);
+                judge(entry, text, kind, ok, &before, &after, &mut fails);
+            }
+        }
+    }
+    if first_changed {
+        out.count("history2_first_request_changed_the_data", 1);
+    }
+    if kind != Kind::Malformed {
+        out.nontrivial(&("history2", state_idx, r1, e1, r2));
+    }
+    out.outcomes.insert(crate::infra::hash64(&(format!("h{:?}", kind), fails.len())));
+    for (symptom, detail, entry) in fails {
+        let tags = vec![format!("entry={}", entry), format!("kind={:?}", kind), format!("multibyte={}", !text.is_ascii()), "family=history2".to_string(), format!("first_entry={}", HISTORY_FIRST[e1])];
+        out.fail(case.clone(), symptom, detail, tags);
+    }
+}
+
+/// insertion and substitution of each WS special at every character offset
+fn ws_mutations(seed: &str, f: &mut dyn FnMut(String)) {
+    let idx: Vec<usize> = seed.char_indices().map(|(i, _)| i).chain(std::iter::once(seed.len())).collect();
+    for (k, &i) in idx.iter().enumerate() {
+        for sp in WS_SPECIALS {
+            f(format!("{}{}{}", &seed[..i], sp, &seed[i..]));
+        }
+        if k + 1 < idx.len() {
+            let j = idx[k + 1];
+            for sp in WS_SPECIALS {
+                f(format!("{}{}{}", &seed[..i], sp, &seed[j..]));
+            }
+        }
     }
 }
 
@@ -186,13 +475,14 @@ fn run(ctx: &Ctx) -> ShardOut {
     let mut out = ShardOut::default();
     let nstates = states().len();
     let mut idx = 0u64;
-    let seeds = seed_corpus();
-    // seeds against every state
+    let (seeds, n_c16) = all_seeds();
+    out.count("max_seeds", seeds.len() as u64);
+    // seeds against every state, every route
     for seed in &seeds {
         for st in 0..nstates {
             idx += 1;
             if ctx.mine(idx) {
-                record(&mut out, ctx, "seed", seed, st);
+                record(&mut out, ctx, "seed", seed, st, true);
             }
         }
     }
@@ -213,17 +503,91 @@ fn run(ctx: &Ctx) -> ShardOut {
             for st in [0usize, 1] {
                 idx += 1;
                 if ctx.mine(idx) {
-                    record(&mut out, ctx, "tokens", &text, st);
+                    record(&mut out, ctx, "tokens", &text, st, len <= 2);
+                }
+            }
+        }
+    }
+    // token strings containing a WS special, spaced and glued
+    {
+        let mut texts: Vec<String> = Vec::new();
+        for w in WS_SPECIALS {
+            texts.push(w.to_string());
+            for joiner in [" ", ""] {
+                for t in TOKENS.iter().copied().chain(WS_SPECIALS.iter().copied()) {
+                    texts.push(format!("{}{}{}", w, joiner, t));
+                    texts.push(format!("{}{}{}", t, joiner, w));
+                }
+            }
+        }
+        texts.sort();
+        texts.dedup();
+        for text in &texts {
+            for st in [0usize, 1] {
+                idx += 1;
+                if ctx.mine(idx) {
+                    record(&mut out, ctx, "tokens_ws", text, st, true);
+                }
+            }
+        }
+    }
+    // raw form values
+    for (si, seed) in seeds.iter().enumerate() {
+        for (k, raw) in raw_form_values(seed).into_iter().enumerate() {
+            idx += 1;
+            if ctx.mine(idx) {
+                record_raw_form(&mut out, ctx, &raw, [1usize, 3, 0, 2][(si + k) % 4]);
+            }
+        }
+    }
+    // the complete neural-relation program, every state, every route
+    for st in 0..nstates {
+        idx += 1;
+        if ctx.mine(idx) {
+            let text = neural_train_text(st);
+            // vacuity: did the request really train (an artifact is registered afterwards)?
+            let (_, ds, quoted) = &states()[st];
+            let mut db = build_state(ds, *quoted);
+            let artifact = std::env::temp_dir().join(format!("kolibrie-vcheck-c17-train-{}.bin", st));
+            let _ = std::fs::remove_file(&artifact);
+            let _ = guarded(|| execute_sparql_query(&text, &mut db).is_ok());
+            if artifact.exists() {
+                out.count("neural_train_requests_that_wrote_a_model_artifact", 1);
+            }
+            if !db.neural_materialized_triples.values().all(|v| v.is_empty()) {
+                out.count("neural_train_requests_that_materialised_predictions", 1);
+            }
+            record(&mut out, ctx, "neural_train", &text, st, true);
+        }
+    }
+    // two-request histories
+    let nreq = history_requests().len();
+    for st in 0..nstates {
+        for r1 in 0..nreq {
+            for e1 in 0..HISTORY_FIRST.len() {
+                for r2 in 0..nreq {
+                    idx += 1;
+                    if ctx.mine(idx) {
+                        record_history(&mut out, ctx, st, r1, e1, r2);
+                    }
                 }
             }
         }
     }
     // single mutations
     let mut_states: Vec<usize> = if ctx.thorough() { (0..nstates).collect() } else { vec![1, 3] };
-    'm: for seed in &seeds {
+    'm: for (si, seed) in seeds.iter().enumerate() {
         let mut batch = Vec::new();
-        mutations(seed, &mut |m| batch.push(m));
-        for (mi, m) in batch.into_iter().enumerate() {
+        mutations(seed, &mut |m| batch.push((false, m)));
+        if si % 4 == 0 || si >= n_c16 {
+            ws_mutations(seed, &mut |m| batch.push((true, m)));
+        }
+        for (mi, (ws, m)) in batch.into_iter().enumerate() {
+            // quick: C17's own (long) seeds get every third mutation, rotating with the offset so
+            // that every kind of mutation still meets every third offset
+            if !ctx.thorough() && si >= n_c16 && (mi / 30 + mi) % 3 != 0 {
+                continue;
+            }
             for (k, &st) in mut_states.iter().enumerate() {
                 idx += 1;
                 // quick: EVERY mutation meets exactly one of the two states (alternating by the
@@ -234,7 +598,7 @@ fn run(ctx: &Ctx) -> ShardOut {
                 if !ctx.mine(idx) {
                     continue;
                 }
-                record(&mut out, ctx, "single_mutation", &m, st);
+                record(&mut out, ctx, if ws { "ws_mutation" } else { "single_mutation" }, &m, st, mi % 8 == 0);
             }
         }
         if ctx.expired() {
@@ -250,8 +614,22 @@ fn replay(ctx: &Ctx, case: &Value) -> ShardOut {
     let text = case["text"].as_str().unwrap_or("").to_string();
     let st = case["state"].as_u64().unwrap_or(0) as usize;
     let fam = case["family"].as_str().unwrap_or("seed").to_string();
-    if st < states().len() {
-        record(&mut out, ctx, &fam, &text, st);
+    if st >= states().len() {
+        out.machinery_errors.push("replay: bad state".into());
+        return out;
+    }
+    match fam.as_str() {
+        "http_form_raw" => record_raw_form(&mut out, ctx, &text, st),
+        "history2" => {
+            let n = history_requests().len();
+            let (r1, e1, r2) = (case["r1"].as_u64().unwrap_or(0) as usize, case["e1"].as_u64().unwrap_or(0) as usize, case["r2"].as_u64().unwrap_or(0) as usize);
+            if r1 >= n || r2 >= n || e1 >= HISTORY_FIRST.len() {
+                out.machinery_errors.push("replay: bad history case".into());
+            } else {
+                record_history(&mut out, ctx, st, r1, e1, r2);
+            }
+        }
+        _ => record(&mut out, ctx, &fam, &text, st, case["wide"].as_bool().unwrap_or(true)),
     }
     out
 }
